@@ -994,7 +994,7 @@ func (t *eqTreeGen) op() *OpDesc {
 func (t *eqTreeGen) cond(depth int, nested bool) *Node {
 	n := &Node{T: "cond", Kw: eqStrPool[t.r.Intn(len(eqStrPool))], Op: t.op()}
 	if nested && t.r.Pct(25) {
-		n.A = []string{"aval", "aptr", "avalstr", "aptrstr"}[t.r.Intn(4)]
+		n.A = []string{"aval", "aptr", "avalstr", "aptrstr", "pp", "ppa"}[t.r.Intn(6)]
 	}
 	if t.r.Pct(30) {
 		n.Opt |= 1
@@ -1016,7 +1016,7 @@ func (t *eqTreeGen) cond(depth int, nested bool) *Node {
 func (t *eqTreeGen) stack(depth int, nested bool) *Node {
 	n := &Node{T: "stack", Kind: kinds[t.r.Intn(len(kinds))]}
 	if nested && t.r.Pct(30) {
-		n.A = []string{"aval", "aptr", "avalstr", "aptrstr"}[t.r.Intn(4)]
+		n.A = []string{"aval", "aptr", "avalstr", "aptrstr", "pp", "ppa"}[t.r.Intn(6)]
 	}
 	for _, o := range []int{1, 2, 4, 8} {
 		if t.r.Pct(20) {
@@ -1112,6 +1112,12 @@ func genEqual(ctx *Ctx, emit func(any, string)) {
 				tree := &Node{T: "stack", Kind: "AND", Els: []*Node{{T: "str", S: "x"},
 					{T: "cond", Kw: "k", Op: &OpDesc{Builtin: 1}, Ex: pl}, {T: "stack", Kind: "OR", A: "aptr", Els: []*Node{eqClone(leaf)}}}}
 				pairs(tree, "exhaustive", 10, ctx.Rng)
+				// the same behind two pointer levels (**Stack, **alias, **Condition)
+				tree2 := &Node{T: "stack", Kind: "AND", Els: []*Node{{T: "str", S: "x"},
+					{T: "cond", A: "pp", Kw: "k", Op: &OpDesc{Builtin: 1}, Ex: eqClone(leaf)},
+					{T: "stack", Kind: "OR", A: []string{"pp", "ppa"}[tag%2], Els: []*Node{eqClone(leaf), {T: "int", I: 3}}},
+					{T: "cond", Kw: "c", Op: &OpDesc{Builtin: 2}, Ex: &Node{T: "stack", Kind: "LIST", A: "ppa", Els: []*Node{eqClone(leaf)}}}}}
+				pairs(tree2, "exhaustive", 12, ctx.Rng)
 			}
 		}
 	}
